@@ -152,7 +152,7 @@ enum Op {
     Gc(usize, Output<Datum<Command>, E>),
     /// `tu:<i>`: `Updatable::update` of terminal i
     Tu(usize),
-    /// `rb:<i>:<j>`: the three reads of terminal i while terminal j is mutably borrowed by the caller (must panic with a
+    /// `rb:<i>:<j>`: the STATE read of terminal i while terminal j is mutably borrowed by the caller (must panic with a
     /// `RefCell` borrow error when j is i or i's partner — never answer from unwritten memory)
     Rb(usize, usize),
 }
@@ -375,7 +375,7 @@ pub fn run(toks: &[&str], out: &mut Vec<String>) -> R<()> {
             }
             Op::Rb(i, j) => {
                 let held = terms[j].borrow_mut();
-                let tok = read_tok(terms[i]);
+                let tok = get_state(terms[i]).enc();
                 drop(held);
                 out.push(tok);
             }
